@@ -41,6 +41,7 @@ Fixpoint pu_inits (vis : list vinfo) (inn : list N) (newn : list N) (recs : list
   | t :: r =>
     let k := tp_name t in
     if N.eqb k 0 then pu_inits vis inn newn recs r
+    else if existsb (fun t' => N.eqb (tp_name t') k) r then pu_inits vis inn newn recs r   (* only the last tensor of a name *)
     else if memN k inn || memN k newn
     then match irec_update k (tdesc_of t) recs with
          | Some recs' => pu_inits vis inn newn recs' r
